@@ -1,4 +1,17 @@
 import PortusModel.Props.C06
+import PortusModel.Props.C06Acts
+#print axioms Portus.C06.updatefield_staged
+#print axioms Portus.C06.updatefield_acts
+#print axioms Portus.C06.changeprog_staged
+#print axioms Portus.C06.changeprog_acts
+#print axioms Portus.C06.changeprog_unknown_uid
+#print axioms Portus.C06.pending_applied
+#print axioms Portus.C06.pending_applied_switch
+#print axioms Portus.C06.update_takes_effect
+#print axioms Portus.C06.update_control_takes_effect
+#print axioms Portus.C06.changeprog_takes_effect
+#print axioms Portus.C06.updatefield_over_127_refused
+#print axioms Portus.C06.stageUpdates_spec
 #print axioms Portus.C06.changeprog_read_by_libccp
 #print axioms Portus.C06.updatefield_read_by_libccp
 #print axioms Portus.C06.install_read_by_libccp
